@@ -417,3 +417,20 @@ Proof. split; [reflexivity | discriminate]. Qed.
 (* 5 < 12 between two JSON items is false: the texts "5" and "12" are compared *)
 Lemma items_ordered_as_text : json_items_lt (JInt 5) (JInt 12) = false /\ json_items_lt (JInt 12) (JInt 5) = true.
 Proof. split; reflexivity. Qed.
+
+(* ------------------------------------------------------------------ e.j[p] == e.j[q] between two JSON items compares their JSON texts: right for ints *)
+Lemma fmt_d_inj a b : fmt_d a = fmt_d b -> a = b.
+Proof.
+  unfold fmt_d. destruct (a <? 0) eqn:Ea, (b <? 0) eqn:Eb; intros H.
+  - inversion H as [H1]. destruct (digits_ok (- a)) as [Ha _]; [lia|]. destruct (digits_ok (- b)) as [Hb _]; [lia|]. rewrite H1 in Ha. lia.
+  - destruct (digits_head b) as [d [r [Hd Hdig]]]; [lia|]. rewrite Hd in H. inversion H. subst d. discriminate Hdig.
+  - destruct (digits_head a) as [d [r [Hd Hdig]]]; [lia|]. rewrite Hd in H. inversion H. subst d. discriminate Hdig.
+  - destruct (digits_ok a) as [Ha _]; [lia|]. destruct (digits_ok b) as [Hb _]; [lia|]. rewrite H in Ha. lia.
+Qed.
+
+Definition json_items_eq (a b : jv) : bool := str_eqb (jtext a) (jtext b).
+
+Lemma items_eq_ints a b : json_items_eq (JInt a) (JInt b) = (a =? b).
+Proof.
+  unfold json_items_eq. cbn [jtext]. apply Bool.eq_iff_eq_true. rewrite str_eqb_eq, Z.eqb_eq. split; [apply fmt_d_inj | now intros ->].
+Qed.
